@@ -29,10 +29,17 @@ var currentClassBs bs_domain.ClassBadSmellInfo
 func NewBadSmellListener() *BadSmellListener {
 	currentClz = ""
 	currentPkg = ""
+	currentClzType = ""
+	imports = nil
 	methods = nil
 	methodCalls = nil
 	currentClzImplements = nil
 	currentClzExtends = ""
+	// per-file tables and counters: nothing of the previous file may survive
+	fields = make(map[string]string)
+	localVars = make(map[string]string)
+	formalParameters = make(map[string]string)
+	currentClassBs = bs_domain.ClassBadSmellInfo{}
 	return &BadSmellListener{}
 }
 
